@@ -3,9 +3,9 @@
 //! run on each pair and the call is recorded (AJ) for validation by TLC against the specification
 //! (spec/tv/TV_Call.tla).
 //!
-//! Discipline (no false alarms): a computed non-integral number has no text in the specification, so an
-//! arithmetic expression is never placed where it would be stringified (cat, ==/< against non-numbers,
-//! in, var keys, substr); strings never contain the white-space code points on which Rust and ECMAScript
+//! Discipline (no false alarms): a computed non-integral number gets its text from spec/NumText.tla (shortest
+//! round-trip digits, validated against the real serialiser by TV_NumText), which costs ~0.4 s per number in TLC,
+//! so arithmetic is placed into stringifying contexts only occasionally (number-only operands); strings never contain the white-space code points on which Rust and ECMAScript
 //! differ by definition; keys are strings, integers or null.
 
 use crate::rng::Rng;
@@ -174,6 +174,9 @@ fn plain_expr(r: &mut Rng, d: usize) -> Value {
         8 => json!({"filter": [arr_expr(r, d - 1), bool_expr(r, d - 1)]}),
         9 => json!({"var": [*r.pick(&["nope", "o.zz", "xs.9", "s", "z"]), plain_expr(r, d - 1)]}),
         10 => json!({"log": plain_expr(r, d - 1)}),
+        // an arithmetic result in a string / comparison / membership context: its text is the shortest
+        // round-trip form, which the specification computes (spec/NumText.tla)
+        11 if r.chance(1, 3) => num_side(r, 1),
         _ => bool_expr(r, d - 1),
     }
 }
@@ -424,5 +427,21 @@ pub fn cmd_record(args: &[String]) {
         writeln!(out, "{}", json!({"rule": aj::to_aj(&rule), "data": aj::to_aj(&data), "out": run::outcome_aj(&o),
             "plain": {"rule": rule.to_string(), "data": data.to_string(), "out": run::outcome_plain(&o)}})).unwrap();
         written += 1;
+    }
+}
+
+/// numtext <n> <seed> <out.ndjson>: random finite doubles with the text the real serialiser prints (validated by TV_NumText)
+pub fn cmd_numtext(args: &[String]) {
+    let n: usize = args[0].parse().unwrap();
+    let seed: u64 = args[1].parse().unwrap();
+    let mut out = BufWriter::new(File::create(&args[2]).unwrap());
+    let mut r = Rng::new(seed ^ 0x5157);
+    let specials = [0.1, 0.2, 0.3, 1.0 / 3.0, 2.5, 1e15, 1e16, 1.5e16, 1e21, 1e-5, 9.5e-6, 1e-6, 1e-7, 5e-324, 1.7976931348623157e308, 2.2250738585072014e-308, 123.456, 100.5,
+        9007199254740993.0, 18446744073709551616.0, 1e22, 1e23, 9.999999999999998e19, 0.000012345, 4.35, 0.30000000000000004, 1.1, 1e300, 123456789012345680.0, 8.41e21, 2f64.powi(-1074), 2f64.powi(1023)];
+    for i in 0..n {
+        let f = if i < specials.len() { specials[i] } else { gen_float(&mut r) };
+        let f = if r.chance(1, 4) { -f } else { f };
+        let num = Number::from_f64(f).unwrap();
+        writeln!(out, "{}", aj::num_to_aj(&num)).unwrap();
     }
 }
